@@ -4,6 +4,7 @@ import (
 	"fmt"
 	"go/ast"
 	"go/constant"
+	"go/parser"
 	"go/token"
 	"go/types"
 	"math/big"
@@ -26,6 +27,7 @@ func init() {
 			{ID: "C02.R5", Floor: 2, Doc: "short two's-complement encodings are sign-extended for every length", Run: c02r5},
 			{ID: "C02.R6", Floor: 20, Doc: "unmarshalIntlike masks equal the CQL width and fit the destination", Run: c02r6},
 			{ID: "C02.R7", Floor: 3, Doc: "nullable destinations: nil for null, fresh value otherwise", Run: c02r7},
+			{ID: "C02.R8", Floor: 2, Doc: "varint trimming: a leading byte is dropped only when it is 0x00 followed by a byte with the top bit clear, or 0xFF followed by a byte with the top bit set", Run: c02r8},
 		},
 		Variants: []Variant{{Name: "linux/386", GOARCH: "386"}},
 	})
@@ -1424,4 +1426,118 @@ func nilFraming(p *Program, info *types.Info, region ast.Node, name string, afte
 		return true
 	})
 	return
+}
+
+// ---------- R8: varint trimming ----------
+
+// c02r8: minimal-length varints are produced by dropping redundant leading sign bytes. Dropping byte b0 (at i)
+// in front of b1 (at i+1) keeps the value only if b0 == 0x00 and b1 < 0x80, or b0 == 0xFF and b1 >= 0x80.
+// Every explicit skip (i++) inside the trimming loop must be dominated by one of the two conditions; a skip
+// justified by only one polarity of b1's top bit drops a sign byte that is needed (or keeps a redundant one).
+func c02r8(p *Program, r *Report) {
+	var cands []*FuncInfo
+	for _, name := range []string{"marshalVarint"} {
+		if fi := r.NeedFunc(name); fi != nil {
+			cands = append(cands, fi)
+			info := fi.Pkg.TypesInfo
+			for _, c := range callsIn(fi.Decl.Body) {
+				if fn := calleeOf(info, c); fn != nil {
+					if callee := p.FuncOf(fn); callee != nil && callee.Decl.Body != nil && callee.Pkg == p.Root && !strings.HasPrefix(callee.Name, "marshal") && !strings.HasPrefix(callee.Name, "enc") {
+						cands = append(cands, callee)
+					}
+				}
+			}
+		}
+	}
+	found := 0
+	doneFn := map[*FuncInfo]bool{}
+	for _, fi := range cands {
+		if doneFn[fi] {
+			continue
+		}
+		doneFn[fi] = true
+		g := p.GraphOf(fi)
+		facts := g.GuardFacts()
+		ast.Inspect(fi.Decl.Body, func(x ast.Node) bool {
+			loop, ok := x.(*ast.ForStmt)
+			if !ok {
+				return true
+			}
+			inc, ok := loop.Post.(*ast.IncDecStmt)
+			if !ok || inc.Tok != token.INC {
+				return true
+			}
+			iv := exprStr(inc.X)
+			// names of the byte at i and at i+1
+			lo, hi := "", ""
+			ast.Inspect(loop.Body, func(y ast.Node) bool {
+				as, ok := y.(*ast.AssignStmt)
+				if !ok || as.Tok != token.DEFINE || len(as.Lhs) != len(as.Rhs) {
+					return true
+				}
+				for k, rhs := range as.Rhs {
+					ix, ok := ast.Unparen(rhs).(*ast.IndexExpr)
+					if !ok {
+						continue
+					}
+					idx := strings.ReplaceAll(exprStr(ix.Index), " ", "")
+					switch idx {
+					case iv:
+						lo = exprStr(as.Lhs[k])
+					case iv + "+1":
+						hi = exprStr(as.Lhs[k])
+					}
+				}
+				return true
+			})
+			if lo == "" || hi == "" {
+				return true
+			}
+			found++
+			known := func(f Facts, src string) (bool, bool) {
+				e, err := parser.ParseExpr(src)
+				if err != nil {
+					return false, false
+				}
+				return f.Known(e)
+			}
+			isTrue := func(f Facts, srcs ...string) bool {
+				for _, s := range srcs {
+					if v, ok := known(f, s); ok && v {
+						return true
+					}
+				}
+				return false
+			}
+			isFalse := func(f Facts, srcs ...string) bool {
+				for _, s := range srcs {
+					if v, ok := known(f, s); ok && !v {
+						return true
+					}
+				}
+				return false
+			}
+			n := 0
+			ast.Inspect(loop.Body, func(y ast.Node) bool {
+				st, ok := y.(*ast.IncDecStmt)
+				if !ok || st.Tok != token.INC || exprStr(st.X) != iv {
+					return true
+				}
+				n++
+				f, _ := facts.Before(st)
+				zero := isTrue(f, lo+" == 0", lo+" == 0x00") || isFalse(f, lo+" != 0")
+				ff := isTrue(f, lo+" == 0xFF", lo+" == 0xff", lo+" == 255") || isFalse(f, lo+" != 0xFF")
+				topClear := isTrue(f, hi+"&0x80 == 0", hi+" < 0x80") || isFalse(f, hi+"&0x80 != 0", hi+"&0x80 > 0", hi+" >= 0x80")
+				topSet := isTrue(f, hi+"&0x80 != 0", hi+"&0x80 > 0", hi+"&0x80 == 0x80", hi+" >= 0x80") || isFalse(f, hi+"&0x80 == 0", hi+" < 0x80")
+				okSkip := zero && topClear || ff && topSet
+				r.Check(okSkip, st, fmt.Sprintf("%s: leading byte skipped at %s only when redundant #%d", fi.Name, p.Pos(st), n), ifs(zero, "0x00 before a byte with the top bit clear", "0xFF before a byte with the top bit set"),
+					fmt.Sprintf("a leading byte is dropped under a condition that does not establish (%s == 0x00 and %s < 0x80) or (%s == 0xFF and %s >= 0x80): known here: zero=%v ff=%v topClear=%v topSet=%v. A sign byte that is needed is removed (e.g. -129 = ff 7f becomes 7f = 127) or a redundant one is kept", lo, hi, lo, hi, zero, ff, topClear, topSet))
+				return true
+			})
+			return true
+		})
+	}
+	if found == 0 {
+		r.Unresolved("marshalVarint: the leading-byte trimming loop (bytes at i and i+1) was not found in marshalVarint or its helpers")
+	}
 }
